@@ -135,6 +135,17 @@ var freshProbe = func() string {
 	return probe(tk, parser.NewParser())
 }()
 
+const (
+	residueA = "SELECT a, b FROM t1 WHERE a = 1; SELECT 2"
+	residueB = "UPDATE t2 SET c = 3 WHERE d IN (SELECT e FROM t3)"
+)
+
+var residueWantA, residueWantB = func() (string, string) {
+	a, _ := gosqlx.Parse(residueA)
+	b, _ := gosqlx.Parse(residueB)
+	return astdump.Dump(a.Statements), astdump.Dump(b.Statements)
+}()
+
 func oracleCancel(c CancelCase) error {
 	// 1. a context that never fires: same result as the context-free call
 	never := cctx.New(-1, nil)
@@ -188,6 +199,22 @@ func oracleCancel(c CancelCase) error {
 				if got := probe(tkz, p); got != freshProbe {
 					return fmt.Errorf("[%s] after a call cancelled at poll %d of %d the same tokenizer/parser answers a probe differently from fresh ones: %s", c.Entry, k, P, astdump.Diff(got, freshProbe))
 				}
+			}
+			// residue in the shared pools: two trees obtained after the cancelled call and held at the
+			// same time must be two trees (a value released twice would be handed out twice)
+			a, errA := gosqlx.Parse(residueA)
+			b, errB := gosqlx.Parse(residueB)
+			if errA != nil || errB != nil {
+				return fmt.Errorf("[%s] after a call cancelled at poll %d of %d a plain parse fails: %v / %v", c.Entry, k, P, errA, errB)
+			}
+			if a == b {
+				return fmt.Errorf("[%s] after a call cancelled at poll %d of %d (%v) two parses return the same *ast.AST while both are held", c.Entry, k, P, ce)
+			}
+			if got := astdump.Dump(a.Statements); got != residueWantA {
+				return fmt.Errorf("[%s] after a call cancelled at poll %d of %d a held tree changed when the next one was parsed: %s", c.Entry, k, P, astdump.Diff(got, residueWantA))
+			}
+			if got := astdump.Dump(b.Statements); got != residueWantB {
+				return fmt.Errorf("[%s] after a call cancelled at poll %d of %d the second tree is wrong: %s", c.Entry, k, P, astdump.Diff(got, residueWantB))
 			}
 		}
 	}
